@@ -377,7 +377,10 @@ def r19_5(ck):
         ok = False
         strict = False
         for a in cfg.guards(node):
-            if a[0] in ('<=', '<') and a[2] == timev:
+            # the clock: a local read from [...]['time'], or that read
+            # itself
+            if a[0] in ('<=', '<') and (a[2] == timev or (
+                    timev is None and a[2].endswith("['time']"))):
                 src = a[1]
                 if 'timeline' in src or any(
                         d.kind == 'for' and 'timeline' in A.unparse(d.value)
